@@ -580,14 +580,17 @@ def check_e2e(rng, quick, docs_dir, stats):
 
 # ---------------------------------------------------------------- entry point
 
-def run(ck, work, realistic=()):
-    """runs the four parts; returns (disagreements, findings, coverage dict)"""
+def run(ck, work, realistic=(), rng=None):
+    """runs the four parts; returns (disagreements, findings, coverage dict).
+    rng: the one random.Random of this correspondence (default: derived from the run's seed)"""
     stats = collections.Counter()
     timing = {}
     t0 = time.time()
     timing['build_model'] = round(build(), 1)
     quick = ck.tier == 'quick'
-    rng = ck.rng
+    if rng is None:
+        import random
+        rng = random.Random(ck.seed * 1000003 + 2020)
     docs = os.path.join(work, 'mdocs')
     os.makedirs(docs, exist_ok=True)
     t1 = time.time()
